@@ -109,14 +109,24 @@ def drop_scratch_root():
         _ROOT = None
 
 
-def observe(bdir, ks, cs, ring, wrap, want_bytes=False, timeout=120):
+def observe(bdir, ks, cs, ring, wrap, want_bytes=False, timeout=120, prelude=False):
     """Materialise, run the tools, project.  Returns the record judged by TLC
-    (keys without '_') plus diagnostics (keys with '_')."""
+    (keys without '_') plus diagnostics (keys with '_').
+    prelude: the trace has a second, already sorted stream that the tool processes FIRST (smaller
+    relative path); streams are sorted independently, so the judged stream must behave as when alone
+    and the other stream must stay byte-identical."""
     d = tempfile.mkdtemp(prefix="c-", dir=scratch_root())
     try:
         td = os.path.join(d, "ovni")
         evs = encode(ks, cs, wrap)
         meta = obs.thread_meta(TID, TID, LOOM, cpus=[(0, 0)])
+        pre_path = pre_bytes = None
+        if prelude:
+            ptid = 1                      # "thread.1" sorts before "thread.<TID>"
+            pevs = b"".join(obs.ev("OB.", BASE + 50 + 3 * i, struct.pack("<I", 900 + i)) for i in range(14))
+            pdir = obs.write_stream(td, LOOM, TID, ptid, obs.thread_meta(ptid, TID, LOOM), pevs)
+            pre_path = os.path.join(pdir, "stream.obs")
+            pre_bytes = open(pre_path, "rb").read()
         sdir = obs.write_stream(td, LOOM, TID, TID, meta, b"".join(evs))
         path = os.path.join(sdir, "stream.obs")
         with open(path, "rb") as f:
@@ -172,6 +182,8 @@ def observe(bdir, ks, cs, ring, wrap, want_bytes=False, timeout=120):
         if want_bytes:
             rec["_in"] = din
             rec["_out"] = dout
+        if prelude:
+            rec["_prelude_changed"] = open(pre_path, "rb").read() != pre_bytes
         return rec
     finally:
         shutil.rmtree(d, ignore_errors=True)
@@ -530,6 +542,26 @@ def _main(pid, tier):
         for t, o in list(zip(exported, obs_))[:4] + list(zip(exported, obs_))[-2:]:
             ck.sample({"ring": t["n"], "stream": show(t["k"], t["c"]), "class": t["exp"],
                        "expected_order": t["order"], "observed": [o["st"], o["oid"]]})
+
+        # ---- several streams in one trace: ovnisort keeps one look-back ring for the whole trace, every
+        # stream must be sorted as if it were alone (prefer the cases that insert at the very start)
+        multi = sorted(exported, key=lambda t: (t["fm"] != 1, t["exp"] != "sorted"))[:(1500 if tier == "quick" else 12000)]
+        mobs = core.pmap(lambda t: observe(bdir, t["k"], t["c"], t["n"], False, timeout=15, prelude=True), multi,
+                         workers=max(4, core.NCPU - 6))
+        magree = 0
+        for t, o in zip(multi, mobs):
+            ck.case("2streams:" + json.dumps([t["n"], t["k"], t["c"]]), nontrivial=t["nreg"] > 0)
+            t2 = dict(t, emu=0)
+            probs = judge(t2, o)
+            if o.get("_prelude_changed"):
+                probs.append(("other-stream-touched", "the already sorted stream processed before was modified"))
+            if not probs:
+                magree += 1
+            for sig, text in probs:
+                ck.violation("ovnisort -n %d on a trace with two streams, second stream [%s] (class %s): %s"
+                             % (t["n"], show(t["k"], t["c"]), t["exp"], text), None, sig="2streams:" + sig)
+        ck.notes["replay_two_streams"] = {"streams": len(multi), "agree": magree}
+        agree_total_extra = magree
 
         # ---- recorded direction
         cases = random_cases(rng, tier)
